@@ -56,9 +56,16 @@ pub fn exec_validator(input: &Value) -> (Value, Value) {
         None => return (input.clone(), json!({"error": "bad rty"})),
     };
     let mut attr_src = String::new();
+    // attributes of other owners on the same field, before and after the validators
+    for o in input["other_before"].as_array().cloned().unwrap_or_default() {
+        attr_src.push_str(&format!("    #[{}]\n", o.as_str().unwrap_or("")));
+    }
     for a in input["attrs"].as_array().cloned().unwrap_or_default() {
         let items: Vec<String> = a.as_array().cloned().unwrap_or_default().iter().map(render_item).collect();
         attr_src.push_str(&format!("    #[validate({})]\n", items.join(", ")));
+    }
+    for o in input["other_after"].as_array().cloned().unwrap_or_default() {
+        attr_src.push_str(&format!("    #[{}]\n", o.as_str().unwrap_or("")));
     }
     let src = format!("#[derive(Serialize, Validate)]\npub struct S {{\n{}    pub x: {},\n}}\n", attr_src, r.render());
     let mut in2 = input.clone();
@@ -152,9 +159,11 @@ pub fn run(out: &mut Out, tier: &str, rng: &mut Rng) {
     let safe_msgs = ["Must be valid", "too short!", "Zwischen 1 und 10", "say \"hi\"", "it's fine", "line\nbreak", "tab\there", "a, b and c", "100% [ok] {x}", "between {min} and {max}", "{message}: at least {min}", "{0} {} {{}} $1 %s {value}"];
     let adv_msgs = ["é", "naïve café", "日本語のメッセージ", "a)b", "(paren)", "invalid email address", "minimum is 3", "at most max", "see url", "range error", "back\\slash", "dir\\new", "cr\rlf", "emoji 🎉 done", "x\\\\y", "\"", "ß", "message here", "length!"];
     let nums_u = ["0", "1", "3", "10", "255", "18446744073709551615", "18446744073709551616", "007"];
-    let nums_f = ["0", "1", "10", "0.5", "1.5", "100.25", "1e3", "2.5e-3", "-5", "-0.5", "+3", "1_000", "1e20", "0.1", "3.14159", "9007199254740993", "5."];
+    let nums_f = ["0", "1", "10", "0.5", "1.5", "100.25", "1e3", "2.5e-3", "-5", "-0.5", "+3", "1_000", "1e20", "0.1", "3.14159", "9007199254740993", "5.", "1E3", "2.5E5", "2.5E-1", "1E+2", "1e+2"];
     // no validator at all / empty validate
     for t in types {
+        // no validator, but other attributes whose text contains the validators' words
+        out.case("validator", json!({"rty": ty(t), "attrs": [], "other_before": ["serde(rename = \"emailUrl\")", "doc = \"length(min = 1) range(max = 2)\""]}), json!({"gen": "none"}));
         out.case("validator", json!({"rty": ty(t), "attrs": []}), json!({"gen": "none"}));
         out.case("validator", json!({"rty": ty(t), "attrs": [[{"k": "email"}]]}), json!({"gen": "single"}));
         out.case("validator", json!({"rty": ty(t), "attrs": [[{"k": "url"}]]}), json!({"gen": "single"}));
@@ -181,7 +190,14 @@ pub fn run(out: &mut Out, tier: &str, rng: &mut Rng) {
                     if mask & 4 != 0 {
                         it["message"] = msg(safe_msgs[k % safe_msgs.len()], k % 2);
                     }
-                    out.case("validator", json!({"rty": ty(t), "attrs": [[it]]}), json!({"gen": "bounds"}));
+                    let others = ["serde(rename = \"emailAddress\")", "serde(deserialize_with = \"trim_length\")", "doc = \"must be a url within range\"",
+                        "schemars(length(min = 7, max = 8), email)", "serde(default, alias = \"url\")", "cfg_attr(feature = \"x\", validate(email))",
+                        "garde(range(min = 100, max = 200))", "serde(skip_serializing_if = \"is_email\")"];
+                    match k % 4 {
+                        0 => out.case("validator", json!({"rty": ty(t), "attrs": [[it]], "other_before": [others[k / 4 % others.len()]]}), json!({"gen": "bounds"})),
+                        1 => out.case("validator", json!({"rty": ty(t), "attrs": [[it]], "other_after": [others[k / 4 % others.len()]]}), json!({"gen": "bounds"})),
+                        _ => out.case("validator", json!({"rty": ty(t), "attrs": [[it]]}), json!({"gen": "bounds"})),
+                    }
                 }
             }
         }
